@@ -31,7 +31,7 @@ local co = coroutine.wrap(function(a) local b = coroutine.yield(a + 1) return b 
 local hs = {function() return debug.traceback("tb") end, function() return tostring(debug.getinfo(1, "n").name) end, function() error("boom") end}
 local dbg = #hs[1]() .. hs[2]() .. select(2, pcall(hs[3])) .. select(2, xpcall(function() return hs[3]() end, debug.traceback)):sub(1, 20) .. debug.getinfo(1, "l").currentline
 local function tailer() return hs[2]() end
-return r .. table.concat(parts) .. t[1] .. co(1) .. co(4) .. select("#", pcall(error, "e")) .. math.floor(3.7) .. os.time{year=2000, month=1, day=1, hour=0} .. dbg .. tailer()
+return r .. table.concat(parts) .. t[1] .. co(1) .. co(4) .. select("#", pcall(error, "e")) .. math.floor(3.7) .. os.time{year=2000, month=1, day=1, hour=0} .. dbg .. tailer() .. -(1 + 2)
 `
 
 const poolSrc = `
@@ -102,6 +102,21 @@ func main() {
 				L.Close()
 			}
 		}(g)
+	}
+	// several goroutines compile one parsed chunk: Compile only reads the syntax tree it is given
+	for g := 0; g < 4; g++ {
+		wg.Add(1)
+		go func() {
+			defer wg.Done()
+			for r := 0; r < rounds; r++ {
+				if _, err := lua.Compile(chunk, "compute"); err != nil {
+					mu.Lock()
+					bad++
+					fmt.Println("MISMATCH compile of the shared chunk:", err)
+					mu.Unlock()
+				}
+			}
+		}()
 	}
 	// states with segmented call stacks: the segments come from a process-wide pool and go back to it
 	// when an error unwinds the stack and when the state is closed
